@@ -6,6 +6,7 @@
 import TealerModel.Generated.Leaf
 import TealerModel.Generated.Consts
 import TealerModel.Dom
+import TealerModel.PyView
 namespace Tealer.Tie
 
 def toG (v : FeeValue) : Generated.GFeeValue := { isUnknown := v.isUnknown, value := v.value }
@@ -108,6 +109,13 @@ theorem enum_tables_tie :
     (Generated.typeEnumTable.all fun (n, l) => typeToType (.lit n) == some l) = true ∧
     (Generated.oncompletionNames.all fun (n, l) => oncompletionToType (.named n) == some l) = true ∧
     (Generated.typeEnumNames.all fun (n, l) => typeToType (.named n) == some l) = true := by
+  decide +kernel
+
+/-- THE VIEWS READ `isinstance` RIGHT: the sub-class table of the instruction and field classes the analyses test with
+    `isinstance`, read from /repo's modules on this run, is the specification's (every class stands alone but `IntcInstruction`).
+    A class made a subclass of `Txn` / `Gtxn` / a governed field class - so that the analyses take its reads for reads of the
+    governed transaction - changes the table and this stops checking. -/
+theorem class_hierarchy_tie : Generated.classHierarchy = PyView.classHierarchySpec := by
   decide +kernel
 
 end Tealer.Tie
